@@ -12,6 +12,9 @@ that only select (`unwrap_or(v)`, `ok()`, `err()`) are expanded the same way. Ca
 argument is not a closure literal of the same body (a fn item, a tuple-struct constructor, a
 closure held in a variable) are left alone.
 
+`it.for_each(|x| body)` with a closure literal is expanded into the loop a `for x in it { body }` lowers to
+(`Iterator::next`, a switch on the discriminant, the body on the Some arm, the back edge): `_desugar_for_each`.
+
 The expansion follows the documented semantics of core::option / core::result; the dropped
 payloads of the arms that discard a value (`filter` -> None, `ok()` on Err, ..) get no drop
 terminator (the only thing lost is a drop site of a value that holds no guard of calloop)."""
@@ -163,6 +166,87 @@ def _desugar_bool_then(cx, bb, name):
     return True
 
 
+def _type_id(cx, s, make):
+    """index of the type spelled `s`, appended (synthetic) when the crate never names it"""
+    for i, t in enumerate(cx.types):
+        if t["s"] == s:
+            return i
+    cx.types.append(make())
+    return len(cx.types) - 1
+
+
+def _desugar_for_each(cx, bb):
+    """it.for_each(|x| body)  ==  loop { match it.next() { Some(x) => body, None => break } }
+
+    `Iterator::for_each` with a closure literal is the documented equivalent of the `for` loop (the default method
+    folds over `next()`; the std iterators that override it keep that meaning). The call is replaced by the loop a
+    `for` over the same iterator lowers to: `Iterator::next(&mut it)`, a switch on the discriminant, the closure body
+    inlined on the Some arm, the back edge."""
+    blk = cx.blocks[bb]
+    t = blk["term"]
+    args = t["args"]
+    if len(args) != 2 or t["dest"]["p"]:
+        return False
+    ipl = args[0].get("m")
+    if ipl is None or ipl["p"]:
+        return False
+    closure = _closure_def(cx.body, args[1])
+    if closure is None:
+        return False
+    callee = cx.by_key.get(closure[0])
+    if callee is None or callee.get("arg_count") != 2:
+        return False
+    sp, D, cont = t["sp"], t["dest"], t["to"]
+    it, ity = ipl["l"], ipl["t"]
+    item = callee["locals"][2]["ty"]
+    its, items = cx.types[ity], cx.types[item]
+
+    def opt_ty():
+        d = {k: items.get(k) for k in ("has_param", "has_dyn", "has_closure", "params")}
+        d.update({"s": OPT + "<" + items["s"] + ">", "adts": [OPT] + [a for a in items.get("adts", []) if a != OPT], "k": "adt", "path": OPT, "key": "core::option::Option", "local": False, "args": [item], "synthetic": True})
+        return d
+
+    def ref_ty():
+        d = {k: its.get(k) for k in ("has_param", "has_dyn", "has_closure", "params", "adts")}
+        d.update({"s": "&mut " + its["s"], "k": "ref", "mut": True, "t": ity, "synthetic": True})
+        return d
+
+    oty = _type_id(cx, OPT + "<" + items["s"] + ">", opt_ty)
+    rty = _type_id(cx, "&mut " + its["s"], ref_ty)
+    o = cx.new_local(oty)
+    r = cx.new_local(rty)
+    d = cx.new_local(cx.isize)
+    # exit: the unit result
+    done = cx.new_block([_assign(copy.deepcopy(D), {"r": "agg", "kind": "tuple", "fields": []}, sp)], {"t": "goto", "to": cont, "sp": sp})
+    head = cx.new_block([_assign(_pl(r, rty), {"r": "ref", "mut": True, "pl": _pl(it, ity)}, sp)], None)
+    back = cx.new_block([], {"t": "goto", "to": head, "sp": sp})
+    res = _inline_closure(cx, closure[0], closure[1], [_use({"m": _pl(o, item, [{"d": 1, "n": "Some"}, {"f": 0, "n": "0", "t": item}])})], back, sp)
+    if res is None:
+        return False
+    entry = res[0]
+    unreachable = cx.new_block([], {"t": "unreachable", "sp": sp})
+    test = cx.new_block(
+        [_assign(_pl(d, cx.isize), {"r": "discr", "pl": _pl(o, oty)}, sp)],
+        {"t": "switch", "on": {"m": _pl(d, cx.isize)}, "targets": [[0, done], [1, entry]], "otherwise": unreachable, "sp": sp, "desugared": "for_each", "desugared_adt": OPT},
+    )
+    f = {
+        "key": "core::iter::traits::iterator::Iterator::next",
+        "path": "std::iter::Iterator::next",
+        "full": "<%s as std::iter::Iterator>::next" % its["s"],
+        "name": "next",
+        "local": False,
+        "args": [ity],
+        "trait": "std::iter::Iterator",
+        "self_ty": ity,
+    }
+    nxt = {"t": "call", "f": f, "args": [{"m": _pl(r, rty)}], "dest": _pl(o, oty), "to": test, "sp": [sp[0], "Desugaring(ForLoop)"] if isinstance(sp, list) and sp else sp}
+    if t.get("unwind") is not None:
+        nxt["unwind"] = t["unwind"]
+    cx.blocks[head]["term"] = nxt
+    blk["term"] = {"t": "goto", "to": head, "sp": sp, "desugared": "for_each"}
+    return True
+
+
 def desugar_call(cx, bb):
     blk = cx.blocks[bb]
     t = blk["term"]
@@ -174,6 +258,8 @@ def desugar_call(cx, bb):
     path, name = f.get("path", ""), f.get("name")
     if path == "core::bool::<impl bool>::then" or path == "core::bool::<impl bool>::then_some":
         return _desugar_bool_then(cx, bb, name)
+    if path == "std::iter::Iterator::for_each" and f.get("trait") == "std::iter::Iterator":
+        return _desugar_for_each(cx, bb)
     if path.startswith(OPT + "::<T>::") and name in OPTION_COMBINATORS:
         adt = OPT
     elif path.startswith(RES + "::<T, E>::") and name in RESULT_COMBINATORS:
